@@ -549,6 +549,23 @@ func RunChild(sc *Scenario) *Result {
 		time.Sleep(time.Millisecond)
 	}
 	time.Sleep(5 * time.Millisecond)
+	// quiescence: portbase itself starts short workers on status changes ("notify of change", failure status updates),
+	// which may still be counted for a moment after the last API call returned
+	quiet := time.Now().Add(5 * time.Second)
+	for time.Now().Before(quiet) {
+		busy := false
+		if st := modules.GetStatus(); st != nil {
+			for _, ms := range st.Modules {
+				if ms.Workers != 0 || ms.Tasks != 0 || ms.MicroTasks != 0 {
+					busy = true
+				}
+			}
+		}
+		if !busy {
+			break
+		}
+		time.Sleep(500 * time.Microsecond)
+	}
 	c.snapshot("final", nil, 0)
 	if me := modules.GetLastReportedError(); me != nil {
 		c.rec(Event{Kind: "last-report", Mod: me.ModuleName, Info: me.TaskName, Report: renderReport(me)})
